@@ -288,6 +288,16 @@ impl FlowGen {
         for k in 0..n {
             let kind = if k == 0 { self.rng.below(2) } else { self.rng.below(4) };
             match kind {
+                0 if !c.ro_lists.is_empty() && self.rng.chance(1, 8) => {
+                    // `for (l <- l)`: the iterable is evaluated before the clause's variable exists,
+                    // so it is the outer list; inside the loop the name is the element
+                    self.feat("for-variable-shadows-its-iterable");
+                    let name = self.rng.pick(&c.ro_lists).clone();
+                    out.push(Clause::Each(lv(&name), var(&name)));
+                    c.ro_lists.retain(|x| x != &name);
+                    c.lists.retain(|x| x != &name);
+                    c.ints.push(name);
+                }
                 0 => {
                     let name = self.fresh("i");
                     let it = if self.rng.chance(1, 2) {
